@@ -199,35 +199,42 @@ func (p *path) clone() *path {
 	return pc
 }
 
-// delRule deletes the HTTP rule to the path.
+// delRule deletes all the HTTP rules of the method from the path.
 func (p *path) delRule(name string) bool {
+	var ok bool
 	for k, s := range p.segments {
-		if ok := s.delRule(name); ok {
+		if s.delRule(name) {
+			ok = true
 			if !s.alive() {
 				delete(p.segments, k)
 			}
-			return ok
 		}
 	}
 
-	for i, v := range p.variables {
-		if ok := v.next.delRule(name); ok {
+	for i := 0; i < len(p.variables); i++ {
+		v := p.variables[i]
+		if v.next.delRule(name) {
+			ok = true
 			if !v.next.alive() {
 				p.variables = append(
 					p.variables[:i], p.variables[i+1:]...,
 				)
+				i--
 			}
-			return ok
 		}
 	}
 
 	for k, m := range p.methods {
 		if m.name == name {
 			delete(p.methods, k)
-			return true
+			ok = true
 		}
 	}
-	return false
+	if m := p.methodAll; m != nil && m.name == name {
+		p.methodAll = nil
+		ok = true
+	}
+	return ok
 }
 
 // addRule adds the HTTP rule to the path.
